@@ -34,7 +34,7 @@ CLAIMED = {
               "reported; with no trusted list a node trusts exactly its defaults plus what Tree/Loss ancestors hand down. One-node archives for every (loader, protocol) x names "
               "enumerated from the modules the property lists are run through get_untrusted_types/load and compared with the model, and checked against the family oracle."),
         note=("Trusted: family tagging oracle harness/families.py (isinstance/issubclass on resolved objects); snapshot probes; Coq kernel. Known finding D03 (bit-generator name "
-              "resolved unaudited) is reported as KNOWN-FINDING. The tree-level theorems assume `leafy` (Json/Slice/Function nodes have only raw leaves), true of get_tree output."),
+              "resolved unaudited) is reported as KNOWN-FINDING. The tree-level theorems assume `leafy` (Json/Slice/Function nodes have only raw leaves), true of get_tree output; a SliceNode audits its own name, not its bounds."),
         ref="DESIGN.md section 4 C11"),
     "C02": dict(
         technique='Coq proof over a call graph + effect table TRANSLATED from the skops/io source on every run (static inertness of everything reachable before the verdict) + observed inertness under audit hook with canary modules + dynamic call edges validated against the translated graph',
@@ -83,19 +83,19 @@ CLAIMED = {
         ref='DESIGN.md section 4 C18'),
     "C13": dict(
         technique="Coq proof over an executable model of walk_tree/_traverse_tree/printer + model/implementation correspondence",
-        text=("coq/props/C13.v (13 theorems): TOTALITY ON DUMPS (first clause) as a theorem on the C05 fragment: for every value in c05_guard (containers, dict family, slices, names, arrays, sparse, dtype, masked, RNGs, partial, bytes / bytearray, rank-1 object arrays; arbitrary sharing), every load environment of that archive and EVERY trusted list, the row generator, show=all and show=untrusted complete, show=untrusted prints exactly the rows that are not fully safe, and show=trusted completes when every row below the root is self-safe (C13_total_on_dumps_partial; proof: the tree built from a dumped state is ranked -- every object above its parts -- hence acyclic with bounded reference depth, every reference resolves, the audit of every node completes independently of fuel and call stack, the walk yields a safe-closed pre-order forest, which _traverse_tree accepts whenever the hidden rows are exactly the fully safe ones); for show=trusted it is refuted with a computed witness ([functools.partial(np.add, 1)]: finding D24). AGREEMENT WITH THE AUDIT: whenever visualize completes (any archive, any trusted list, any show mode) what reaches the printer is the root row followed by rows each at most one level "
+        text=("coq/props/C13.v (14 theorems): TOTALITY ON DUMPS (first clause) as a theorem on the C05 fragment: for every value in c05_guard (containers, dict family, slices, names, arrays, sparse, dtype, masked, RNGs, partial, bytes / bytearray, rank-1 object arrays; arbitrary sharing), every load environment of that archive and EVERY trusted list, the row generator, show=all and show=untrusted complete, show=untrusted prints exactly the rows that are not fully safe, and show=trusted completes when every row below the root is self-safe (C13_total_on_dumps_partial; proof: the tree built from a dumped state is ranked -- every object above its parts -- hence acyclic with bounded reference depth, every reference resolves, the audit of every node completes independently of fuel and call stack, the walk yields a safe-closed pre-order forest, which _traverse_tree accepts whenever the hidden rows are exactly the fully safe ones); for show=trusted it is refuted with a computed witness ([functools.partial(np.add, 1)]: finding D24). AGREEMENT WITH THE AUDIT: whenever visualize completes (any archive, any trusted list, any show mode) what reaches the printer is the root row followed by rows each at most one level "
               "deeper than the previous one, and only rows the filter admits; every row carries the audit's own verdicts for its node (is_self_safe, and fully-safe iff the graph audit "
               "below it reports nothing); the root row is fully safe iff get_untrusted_types is empty for that trust setting; a row is tagged [UNSAFE] iff its own type is untrusted; "
-              "a generic node that is not self-safe is never fully safe. The model (lazy row stream, key_types special case, SKIPPED kinds from the snapshot, Ref/cycle unrolling, the plain-text printer) "
+              "a node of any kind except the protocol-0 FunctionNode that is not self-safe is never fully safe (C13_self_unsafe_not_safe); the former D31-SliceNode witness is reported (C13_slice_name_reported: get_untrusted_types = [x.y], load refuses, row and ancestors not fully safe). The model (lazy row stream, key_types special case, SKIPPED kinds from the snapshot, Ref/cycle unrolling, the plain-text printer) "
               "is compared with /repo on generated valid+malformed archives x trusted x show (printed text and raw rows). Totality on real dumps is checked on generated values x 3 trust settings x 3 show modes."),
         note=("Trusted: Coq kernel; snapshot (SKIPPED_TYPES); generator, runner. rich is absent here: colours not exercised. Open findings: D24 (show='trusted' level jump), D15c (key named key_types), "
-              "D31 (SliceNode / FunctionNode@0 display a name their audit ignores). D15 (slices, bound methods, state-less objects) was repaired in /repo."),
+              "D31-FunctionNode@0 (the protocol-0 FunctionNode displays a name its audit ignores). D15 (slices, bound methods, state-less objects), D32 (untrusted key types) and D31-SliceNode (SliceNode.get_unsafe_set now reports the type the node names) were repaired in /repo."),
         ref="DESIGN.md section 4 C13"),
     "C01": dict(
         technique="Coq proof (audit examines every node; every archive-named resolution is vouched) + traced-load correspondence + canary search",
         text=("coq/props/C01.v over the executable model of get_tree (29 loaders, arbitrary JSON), the graph audit with its cycle guard, and the order in which construct() resolves names: "
               "(1) every tree get_tree builds has pairwise-distinct memoised ids and well-formed child shapes (induction over get_tree, all kinds); (2) hence when load's audit passes, NO node at any depth, "
-              "slot, shared or cyclic position has an audited name outside its trusted list; (3) every gettype/_import_obj call construct() then makes with names taken from the archive is made by a node of "
+              "slot, shared or cyclic position has an audited name outside its trusted list; (2') after a passed audit every node naming its own type, SliceNode included, carries a name in its own trusted list (C01_audit_pass_names_trusted); (3) every gettype/_import_obj call construct() then makes with names taken from the archive is made by a node of "
               "the tree and resolves a name in that node's trusted list (caller's list ++ inherited ++ kind defaults) -- 'the name that was audited is the object that is used'. The full statement over ALL "
               "name-bearing events is false of the faithful model: three refuted theorems (vm_compute witnesses) = open findings D01 (MethodNode attribute), D03 (bit-generator name), D04 (fixed constructor under a "
               "foreign audited name). Tie: loads() of generated archives x trusted specs runs with gettype/_import_obj/import_module/getattr wrapped from outside; the observed resolution trace must equal the model's "
